@@ -23,7 +23,9 @@
 (* used to show that the P-spec is not vacuous.                                           *)
 EXTENDS Naturals, Sequences, FiniteSets, TLC
 
-CONSTANTS NS, Cap, MaxSec, MaxMsg, MaxRSec, MaxRd, MaxConn, Mode, Variant, CommitTO
+CONSTANTS NS, Cap, MaxSeq, MaxMsg, MaxRd, MaxConn, Mode, Variant, CommitTO
+(* MaxSeq bounds the writes of one sender (over all its section attempts), MaxMsg the writes of one *)
+(* section, MaxRd the reads of one receiver section; the number of sections is unbounded.          *)
 
 Senders == 1..NS
 R == NS + 1
@@ -37,15 +39,15 @@ Fr(t, m) == [t |-> t, m |-> m]
 RECURSIVE CtlIdx(_, _)
 CtlIdx(w, i) == IF i > Len(w) THEN 0 ELSE IF w[i].t \in {"pre", "com"} THEN i ELSE CtlIdx(w, i + 1)
 
-VARIABLES sst, conn, nconn, inCS, nsec, nwr, seq, veto, sbuf,   \* senders
+VARIABLES sst, conn, nconn, inCS, nwr, seq, veto, sbuf,   \* senders
           wire, ackq, closed, hst, hbuf, hbegun,                \* connections / handlers
           ch, sendq, listening,                                 \* receiver's channel
-          backlog, inprog, rst, nrsec, nrd,                     \* receiver
+          backlog, inprog, rst, nrd,                     \* receiver
           mon, last, out
 
-svars == <<sst, conn, nconn, inCS, nsec, nwr, seq, veto, sbuf>>
+svars == <<sst, conn, nconn, inCS, nwr, seq, veto, sbuf>>
 cvars == <<wire, ackq, closed, hst, hbuf, hbegun>>
-rvars == <<backlog, inprog, rst, nrsec, nrd>>
+rvars == <<backlog, inprog, rst, nrd>>
 vars == <<svars, cvars, ch, sendq, listening, rvars, mon, last, out>>
 
 (* lastd/abm only refine the class of a violation; hiding them is sound for "some invariant fails" *)
@@ -71,14 +73,14 @@ Mon3(e1, e2, e3) == mon' = LK!LStep(LK!LStep(LK!LStep(mon, e1), e2), e3)
 Init ==
     /\ sst = [s \in Senders |-> "idle"] /\ conn = [s \in Senders |-> 0]
     /\ nconn = [s \in Senders |-> 0] /\ inCS = [s \in Senders |-> FALSE]
-    /\ nsec = [s \in Senders |-> 0] /\ nwr = [s \in Senders |-> 0]
+    /\ nwr = [s \in Senders |-> 0]
     /\ seq = [s \in Senders |-> 0] /\ veto = [s \in Senders |-> FALSE]
     /\ sbuf = [s \in Senders |-> <<>>]
     /\ wire = [c \in Conns |-> <<>>] /\ ackq = [c \in Conns |-> <<>>]
     /\ closed = [c \in Conns |-> FALSE] /\ hst = [c \in Conns |-> "none"]
     /\ hbuf = [c \in Conns |-> <<>>] /\ hbegun = [c \in Conns |-> FALSE]
     /\ ch = <<>> /\ sendq = <<>> /\ listening = (Mode = "free")
-    /\ backlog = <<>> /\ inprog = <<>> /\ rst = "idle" /\ nrsec = 0 /\ nrd = 0
+    /\ backlog = <<>> /\ inprog = <<>> /\ rst = "idle" /\ nrd = 0
     /\ mon = LK!LInit("tcp") /\ last = (IF Gen THEN "init" ELSE "") /\ out = ""
 
 (* ---------------------------------------------------------------- quiescence (gen mode) *)
@@ -88,14 +90,12 @@ TauEnabled == \/ \E c \in Conns : HandlerCanStep(c)
 CmdOK == Mode = "free" \/ ~TauEnabled
 
 (* ---------------------------------------------------------------------------- senders *)
-BeginIfIdle(s) == IF sst[s] = "idle" THEN nsec[s] < MaxSec ELSE sst[s] = "insec"
-NSecAfter(s) == IF sst[s] = "idle" THEN [nsec EXCEPT ![s] = @ + 1] ELSE nsec
+BeginIfIdle(s) == sst[s] \in {"idle", "insec"}
 
 SWrite(s) ==
-    /\ CmdOK /\ BeginIfIdle(s) /\ nwr[s] < MaxMsg
+    /\ CmdOK /\ BeginIfIdle(s) /\ nwr[s] < MaxMsg /\ seq[s] < MaxSeq
     /\ LET m == [s |-> s, q |-> seq[s] + 1] IN
        /\ seq' = [seq EXCEPT ![s] = @ + 1]
-       /\ nsec' = NSecAfter(s)
        /\ IF conn[s] = 0 /\ ~listening
           THEN \* dial fails: WriteValue returns the abort error, the context aborts the section
                /\ Mon3(EvW("ws", s, m), EvW("wf", s, m), Ev("ab", s))
@@ -127,7 +127,7 @@ SAbort(s) ==
     /\ CmdOK /\ sst[s] = "insec"
     /\ SenderAborted(s) /\ Mon1(Ev("ab", s))
     /\ SetLO("A" \o ToString(s), "a")
-    /\ UNCHANGED <<conn, nconn, nsec, seq, cvars, ch, sendq, listening, rvars>>
+    /\ UNCHANGED <<conn, nconn, seq, cvars, ch, sendq, listening, rvars>>
 
 (* the section's body returns; the context calls PreCommit: tag sent, wait for the ack *)
 SCommit(s, v) ==
@@ -136,7 +136,7 @@ SCommit(s, v) ==
     /\ sst' = [sst EXCEPT ![s] = "prewait"] /\ veto' = [veto EXCEPT ![s] = v]
     /\ Mon1(Ev("pc", s))
     /\ SetLO((IF v THEN "V" ELSE "C") \o ToString(s), "")
-    /\ UNCHANGED <<conn, nconn, inCS, nsec, nwr, seq, sbuf, ackq, closed, hst, hbuf, hbegun,
+    /\ UNCHANGED <<conn, nconn, inCS, nwr, seq, sbuf, ackq, closed, hst, hbuf, hbegun,
                    ch, sendq, listening, rvars>>
 
 (* PreCommit got its ack. If another resource of the section vetoes, the context aborts;  *)
@@ -153,7 +153,7 @@ SPreAck(s) ==
                /\ sst' = [sst EXCEPT ![s] = "comwait"]
                /\ Mon1(Ev("cs", s)) /\ KeepO
                /\ UNCHANGED <<nwr, inCS, sbuf, veto>>
-    /\ UNCHANGED <<conn, nconn, nsec, seq, closed, hst, hbuf, hbegun, ch, sendq, listening, rvars>>
+    /\ UNCHANGED <<conn, nconn, seq, closed, hst, hbuf, hbegun, ch, sendq, listening, rvars>>
 
 (* the ack does not arrive in time: the connection is dropped, the section aborts *)
 PreStuck(s) == LET c == <<s, conn[s]>> IN ackq[c] = <<>> /\ hst[c] \in {"push", "dead"}
@@ -165,7 +165,7 @@ SPreTimeout(s) ==
        /\ closed' = [closed EXCEPT ![c] = TRUE]
     /\ conn' = [conn EXCEPT ![s] = 0]
     /\ SenderAborted(s) /\ Mon1(Ev("ab", s)) /\ SetO("t")
-    /\ UNCHANGED <<nconn, nsec, seq, wire, ackq, hst, hbuf, hbegun, ch, sendq, listening, rvars>>
+    /\ UNCHANGED <<nconn, seq, wire, ackq, hst, hbuf, hbegun, ch, sendq, listening, rvars>>
 
 SComAck(s) ==
     /\ sst[s] = "comwait"
@@ -175,7 +175,7 @@ SComAck(s) ==
     /\ sst' = [sst EXCEPT ![s] = "idle"] /\ nwr' = [nwr EXCEPT ![s] = 0]
     /\ inCS' = [inCS EXCEPT ![s] = FALSE] /\ sbuf' = [sbuf EXCEPT ![s] = <<>>]
     /\ Mon1(Ev("ce", s)) /\ SetO("c")
-    /\ UNCHANGED <<conn, nconn, nsec, seq, veto, wire, closed, hst, hbuf, hbegun, ch, sendq,
+    /\ UNCHANGED <<conn, nconn, seq, veto, wire, closed, hst, hbuf, hbegun, ch, sendq,
                    listening, rvars>>
 
 (* Commit must complete: on a time-out it re-dials and re-sends begin, values, commit.   *)
@@ -192,7 +192,7 @@ SComTimeout(s) ==
           /\ wire' = [wire EXCEPT ![c2] = <<Fr("begin", NoM)>>
                           \o [i \in 1..Len(sbuf[s]) |-> Fr("val", sbuf[s][i])] \o <<Fr("com", NoM)>>]
     /\ KeepO
-    /\ UNCHANGED <<sst, inCS, nsec, nwr, seq, veto, sbuf, ackq, hbuf, hbegun, ch, sendq, listening,
+    /\ UNCHANGED <<sst, inCS, nwr, seq, veto, sbuf, ackq, hbuf, hbegun, ch, sendq, listening,
                    rvars, mon>>
 
 (* --------------------------------------------------------------------------- handlers *)
@@ -250,16 +250,13 @@ PopCh ==
          /\ hst' = [hst EXCEPT ![c] = "run"]
          /\ hbuf' = [hbuf EXCEPT ![c] = <<>>]
 
-RBeginIfIdle == IF rst = "idle" THEN nrsec < MaxRSec ELSE TRUE
-NRSecAfter == IF rst = "idle" THEN nrsec + 1 ELSE nrsec
 
 AbortedBacklog == CASE Variant = "abortappend" -> backlog \o inprog
                     [] Variant = "abortlose" -> backlog
                     [] OTHER -> inprog \o backlog
 
 RRead ==
-    /\ CmdOK /\ listening /\ RBeginIfIdle /\ nrd < MaxRd
-    /\ nrsec' = NRSecAfter
+    /\ CmdOK /\ listening /\ nrd < MaxRd
     /\ IF backlog # <<>>
        THEN /\ backlog' = Tail(backlog) /\ inprog' = Append(inprog, Head(backlog))
             /\ rst' = "insec" /\ nrd' = nrd + 1
@@ -281,8 +278,8 @@ RRead ==
     /\ UNCHANGED <<svars, wire, ackq, closed, hbegun, listening>>
 
 RLen ==
-    /\ CmdOK /\ listening /\ RBeginIfIdle
-    /\ nrsec' = NRSecAfter /\ rst' = "insec"
+    /\ CmdOK /\ listening
+    /\ rst' = "insec"
     /\ LET pull == backlog = <<>> /\ ch # <<>>
            nb == IF pull THEN Head(ch) ELSE backlog
            n == IF Variant = "lenover" THEN Len(nb) + Len(ch) ELSE Len(nb)
@@ -296,13 +293,13 @@ RAbort ==
     /\ CmdOK /\ rst = "insec"
     /\ backlog' = AbortedBacklog /\ inprog' = <<>> /\ rst' = "idle" /\ nrd' = 0
     /\ Mon1(Ev("ab", R)) /\ SetLO("RA", "a")
-    /\ UNCHANGED <<svars, cvars, ch, sendq, listening, nrsec>>
+    /\ UNCHANGED <<svars, cvars, ch, sendq, listening>>
 
 RCommit ==
     /\ CmdOK /\ rst = "insec"
     /\ inprog' = <<>> /\ rst' = "idle" /\ nrd' = 0
     /\ Mon2(Ev("cs", R), Ev("ce", R)) /\ SetLO("RC", "c")
-    /\ UNCHANGED <<svars, cvars, ch, sendq, listening, nrsec, backlog>>
+    /\ UNCHANGED <<svars, cvars, ch, sendq, listening, backlog>>
 
 (* the receiver's first use of its own mailbox starts the listener *)
 Listen ==
